@@ -277,6 +277,8 @@ class _Spread(Contract):
 
 class SetInputDivide(_Spread):
     name = f"{HELP}.set_input_divide_by_period"
+    loop_heads = {0: 'while sub_period.start < after_instant',
+                  1: 'while sub_period.start < after_instant'}
     descr = ("pieces already set are left untouched, the remainder is shared equally among the others, so the pieces sum to "
              "the amount; an amount contradicting values set for all pieces is refused")
 
@@ -369,6 +371,7 @@ class SetInputDivide(_Spread):
 
 class SetInputDispatch(_Spread):
     name = f"{HELP}.set_input_dispatch_by_period"
+    loop_heads = {0: 'while sub_period.start < after_instant'}
     descr = "every piece not set before receives the value itself; pieces set before are never overwritten"
 
     def _want(self, ctx, I, vars, k):
